@@ -24,6 +24,12 @@ def run_property(pid, tier, repo=None, quiet=False):
         except AnalysisIncomplete as e:
             ck.incomplete.append(str(e))
             explanation = getattr(mod, 'EXPLANATION', '') or str(e)
+        if tier == 'thorough' and os.environ.get('VERIF_SELFVALIDATION', '1') != '0':
+            try:
+                from . import thorough
+                thorough.run(ck, jobs=int(os.environ.get('VERIF_JOBS', '16')))
+            except Exception as e:      # self-validation must never decide the verdict
+                ck.notes['thorough'] = {'error': repr(e)}
         ck.finish(explanation or getattr(mod, 'EXPLANATION', ''))
         return ck.verdict()
     except AnalysisIncomplete as e:
